@@ -147,4 +147,159 @@ theorem sameBeh_raw_iter (rt : Obj → Obj) (hf : Faithful rt) (n : Nat) (o : Ob
     · simp [callV, h1, h3]
     · simp [getattr, h2]
 
+/-! ## histories on one wrapper object -/
+
+/-- a state change keeps `callable(obj)` (in Python it is decided by the object's type) -/
+def CallStable (f : Obj → Obj) : Prop := ∀ o, (f o).callable = o.callable
+
+/-- every state change of the live object in the history is `CallStable` -/
+def StableOps : List HOp → Prop
+  | [] => True
+  | .mutate f :: ops => CallStable f ∧ StableOps ops
+  | _ :: ops => StableOps ops
+
+theorem pickleNow_eq_trip (rt : Obj → Obj) (v : Val) : pickleNow rt v = trip rt v := by
+  cases v with
+  | raw o => rfl
+  | wrap k keep v => cases keep <;> rfl
+
+theorem core_mapCore (f : Obj → Obj) (v : Val) : core (mapCore f v) = f (core v) := by
+  induction v with
+  | raw o => rfl
+  | wrap k keep v ih => simpa [mapCore, core] using ih
+
+theorem keptLayers_mapCore (f : Obj → Obj) (v : Val) : keptLayers (mapCore f v) = keptLayers v := by
+  induction v with
+  | raw o => rfl
+  | wrap k keep v ih => simp [mapCore, keptLayers, ih]
+
+theorem mapCore_mapCore (f g : Obj → Obj) (v : Val) :
+    mapCore g (mapCore f v) = mapCore (fun o => g (f o)) v := by
+  induction v with
+  | raw o => rfl
+  | wrap k keep v ih => simp [mapCore, ih]
+
+theorem mapCore_congr {f g : Obj → Obj} (h : ∀ o, f o = g o) (v : Val) : mapCore f v = mapCore g v := by
+  have : f = g := funext h
+  rw [this]
+
+theorem mapCore_id (v : Val) : mapCore (fun o => o) v = v := by
+  induction v with
+  | raw o => rfl
+  | wrap k keep v ih => simp [mapCore, ih]
+
+theorem isCallable_mapCore (f : Obj → Obj) (hf : CallStable f) (v : Val) :
+    isCallable (mapCore f v) = isCallable v := by
+  cases v with
+  | raw o => exact hf o
+  | wrap k keep v => rfl
+
+theorem regular_mapCore (f : Obj → Obj) (hf : CallStable f) (v : Val) (hv : Regular v) :
+    Regular (mapCore f v) := by
+  induction v with
+  | raw o => trivial
+  | wrap k keep v ih =>
+    obtain ⟨hk, hr⟩ := hv
+    refine ⟨?_, ih hr⟩
+    unfold kindOk at *
+    rw [hk, isCallable_mapCore f hf v]
+
+theorem liveMut_callStable (ops : List HOp) (h : StableOps ops) : CallStable (liveMut ops) := by
+  induction ops with
+  | nil => exact fun _ => rfl
+  | cons op ops ih =>
+    cases op with
+    | mutate f =>
+      obtain ⟨hf, hr⟩ := h
+      intro o
+      show (liveMut ops (f o)).callable = o.callable
+      rw [ih hr (f o), hf o]
+    | pickle src => exact ih h
+    | mutateCopy j f => exact ih h
+
+theorem hstep_pickle_some (rt : Obj → Obj) (s : Session) (src : Option Nat) (v : Val)
+    (h : srcVal s src = some v) : hstep rt s (.pickle src) = { s with got := s.got ++ [pickleNow rt v] } := by
+  simp only [hstep, h]
+
+theorem hstep_pickle_none (rt : Obj → Obj) (s : Session) (src : Option Nat)
+    (h : srcVal s src = none) : hstep rt s (.pickle src) = s := by
+  simp only [hstep, h]
+
+theorem hrun_append (rt : Obj → Obj) (s : Session) (a b : List HOp) :
+    hrun rt s (a ++ b) = hrun rt (hrun rt s a) b := by
+  induction a generalizing s with
+  | nil => rfl
+  | cons op a ih => exact ih _
+
+/-- picklings and changes of received copies never change the live wrapper: it is the initial one
+with the object in the state the `mutate` events left it in -/
+theorem hrun_live (rt : Obj → Obj) (s : Session) (ops : List HOp) :
+    (hrun rt s ops).live = mapCore (liveMut ops) s.live := by
+  induction ops generalizing s with
+  | nil => exact (mapCore_id _).symm
+  | cons op ops ih =>
+    show (hrun rt (hstep rt s op) ops).live = _
+    rw [ih]
+    cases op with
+    | mutate f => exact mapCore_mapCore f (liveMut ops) s.live
+    | pickle src =>
+      have : (hstep rt s (.pickle src)).live = s.live := by
+        cases hv : srcVal s src with
+        | none => rw [hstep_pickle_none rt s src hv]
+        | some v => rw [hstep_pickle_some rt s src v hv]
+      rw [this]; rfl
+    | mutateCopy j f => rfl
+
+theorem length_modifyAt (f : Val → Val) (j : Nat) (l : List Val) : (modifyAt f j l).length = l.length := by
+  induction l generalizing j with
+  | nil => cases j <;> rfl
+  | cons x xs ih => cases j <;> simp [modifyAt, ih]
+
+theorem getElem?_modifyAt_ne (f : Val → Val) (j k : Nat) (l : List Val) (h : j ≠ k) :
+    (modifyAt f j l)[k]? = l[k]? := by
+  induction l generalizing j k with
+  | nil => cases j <;> rfl
+  | cons x xs ih =>
+    cases j with
+    | zero =>
+      cases k with
+      | zero => exact absurd rfl h
+      | succ k => rfl
+    | succ j =>
+      cases k with
+      | zero => rfl
+      | succ k =>
+        simp only [modifyAt, List.getElem?_cons_succ]
+        exact ih j k (fun e => h (by rw [e]))
+
+/-- a copy already received is changed by nothing but a `mutateCopy` event aimed at it: neither by
+changes of the original, nor by later picklings, nor by changes of other copies -/
+theorem got_stable (rt : Obj → Obj) (s : Session) (ops : List HOp) (k : Nat) (hk : k < s.got.length)
+    (h : ∀ j f, HOp.mutateCopy j f ∈ ops → j ≠ k) : (hrun rt s ops).got[k]? = s.got[k]? := by
+  induction ops generalizing s with
+  | nil => rfl
+  | cons op ops ih =>
+    have hrest : ∀ j f, HOp.mutateCopy j f ∈ ops → j ≠ k := fun j f hm => h j f (List.mem_cons_of_mem _ hm)
+    show (hrun rt (hstep rt s op) ops).got[k]? = _
+    cases op with
+    | mutate f => exact ih _ hk hrest
+    | pickle src =>
+      cases hv : srcVal s src with
+      | none => rw [hstep_pickle_none rt s src hv]; exact ih _ hk hrest
+      | some v =>
+        rw [hstep_pickle_some rt s src v hv, ih _ (by simp; omega) hrest]
+        exact List.getElem?_append_left hk
+    | mutateCopy j f =>
+      rw [ih _ (by simpa [hstep, length_modifyAt] using hk) hrest]
+      exact getElem?_modifyAt_ne _ j k _ (h j f List.mem_cons_self)
+
+/-- what a pickling event delivers, whatever happens afterwards -/
+theorem copy_general (rt : Obj → Obj) (s : Session) (src : Option Nat) (v : Val) (post : List HOp)
+    (hv : srcVal s src = some v)
+    (hpost : ∀ j f, HOp.mutateCopy j f ∈ post → j ≠ s.got.length) :
+    (hrun rt s (.pickle src :: post)).got[s.got.length]? = some (trip rt v) := by
+  show (hrun rt (hstep rt s (.pickle src)) post).got[s.got.length]? = _
+  rw [hstep_pickle_some rt s src v hv, got_stable rt _ post s.got.length (by simp) hpost, pickleNow_eq_trip]
+  simp
+
 end LokyModel.Wrapper
